@@ -247,9 +247,10 @@ def summarise(ev, st0, fr, H, stops):
     accel = set()
     rounds = 0
     unstable_rounds = {}
+    narrowed = set()
     while True:
         rounds += 1
-        if rounds > 16:
+        if rounds > 24:
             raise Unsupported("loop at bb%d of %s: no fixpoint for written locations / intervals" % (H, fr.body["key"]))
         log_reset(ev, mark)
         ev.loop_counter = saved_counter
@@ -301,10 +302,31 @@ def summarise(ev, st0, fr, H, stops):
                     break
                 a_, b_ = P.arange(ev, o.st, nv)
                 lo, hi = min(lo, a_), max(hi, b_)
+            top = (0, T.mask(t.w))
+            if ranges[n] == top and n not in narrowed and isinstance(init, T.T):
+                # narrowing: the value after one iteration from an arbitrary value, joined with the initial value
+                nlo, nhi = P.arange(ev, st0, init)
+                okn = True
+                for o in conts:
+                    nv = value_at(ev, o.st, wh)
+                    if isinstance(nv, T.T):
+                        nv = resolve(ev, o.st, nv)
+                    if not isinstance(nv, T.T) or nv.w != t.w:
+                        okn = False
+                        break
+                    a_, b_ = P.arange(ev, o.st, nv)
+                    nlo, nhi = min(nlo, a_), max(nhi, b_)
+                narrowed.add(n)
+                if okn and (nlo, nhi) != top:
+                    new[n] = (nlo, nhi)
+                    changed = True
+                continue
             if (lo, hi) != ranges[n]:
                 changed = True
                 unstable_rounds[n] = unstable_rounds.get(n, 0) + 1
-                if unstable_rounds[n] >= 2:
+                if n in narrowed:
+                    lo, hi = top  # the narrowed interval was not inductive after all
+                elif unstable_rounds[n] >= 2:
                     (lo, hi), acc = widen(ev, n, t, wh, conts, ranges[n], (lo, hi), trip, st0)
                     if acc:
                         accel.add(n)
